@@ -52,6 +52,13 @@ def _runner(ctx, defn, label):
     ok = len(P) == 1 and len(S) == 2 and len(FE) == 1
     ctx.check(label, ok, "one process_with_audit site, two audit sends (in-loop and final), one feed-ended audit",
               got=(len(P), len(S), len(FE)), key="shape")
+    # the runner only SENDS into the caller's audit channel: it never disables / replaces it (a second run on the same channel
+    # would otherwise process events without emitting a single record)
+    other = sorted(set(mir.short(tm[1]) for bi, t, tm in calls if tm[2] and render(tm[2][0]) in ("audit_tx", "^audit_tx") and b.mut_args(t)
+                       and mir.short(tm[1]) != "ChannelTxDroppable::send"))
+    st = [render(x[2]) for x in b.stores() if render(x[2]).startswith(("audit_tx", "^audit_tx"))]
+    ctx.check(label, not other and not st, "the audit channel handed to the runner is only sent into, never disabled or overwritten",
+              got={"calls": other, "stores": st}, key="channel-kept")
     if not ok:
         return None
     p = P[0]
